@@ -23,7 +23,7 @@ RULE = ("flow cases: population (1-30 taxa, 1-24 markers, ploidy 1/2/4, taxon na
         "sub-selection of it, new taxa of another size and allele frequency, or 600-4000 taxa stored pool after pool with pool-specific allele frequencies; interleaved with phenotype() and re-assignment of var_err / gpmod; "
         "every call judged for the population passed in that call), rng Generator/RandomState/global) x phenotype-frame variant "
         "(as returned, rows shuffled, index reset, unbalanced after row deletion, renamed + junk columns, trait subset/reversed; trait columns "
-        "float64 / float32 / integer scores on all or some traits; row index default, shuffled, filtered, string, non-unique, reversed, offset) x "
+        "float64 / float32 / integer scores on all or some traits; NaN cells scattered independently per trait, taxa without any record of one trait; row index default, shuffled, filtered, string, non-unique, reversed, offset) x "
         "1-4 estimate() calls on ONE long-lived MeanPhenotypicBreedingValue object (tables with and without group labels alternating, with / without "
         "genotype matrix, each judged) x "
         "genotype matrix for alignment (None, same, permuted, subset, with never-phenotyped taxa, only unphenotyped, single candidate, parent "
@@ -46,6 +46,7 @@ ASSUME = ["true genotypic value = intercept + dosage.u_a (+ heterozygous.u_d); i
           "TrueBreedingValue is judged against intercept + dosage.u_a only for purely additive models; with dominance only labels and "
           "taxon-permutation equivariance are judged",
           "a variance argument left None requests zero variance (the constructor's default)",
+          "a NaN cell of a phenotype table is an unobserved plot of that trait: each trait's mean is over ITS observed records of the taxon, NaN when it has none",
           "means of float32 trait columns are accepted to 1e-6*scale (they may be averaged and returned in float32); integer columns are exact records",
           "G_E_Phenotyping.phenotype() and MeanPhenotypicBreedingValue.estimate() promise a result for every valid trial / table / cohort "
           "(also a cohort none of whose taxa was phenotyped): raising there is a violation; other calls that raise are counted under 'raised'",
@@ -423,14 +424,21 @@ def judge_estimate(ctx, bv, gt, means, fgroups, tr, colscale, icls, gcls, coords
     for i, t in rows.items():
         if t in means:
             exp[i] = means[t][0]
-    phen = ~numpy.isnan(exp[:, 0]) if mat.shape[1] else numpy.zeros(len(rows), dtype=bool)
+    phen = numpy.array([rows[i] in means for i in range(len(rows))], dtype=bool)      # the taxon has records (some cells may be unobserved)
     # unphenotyped taxa are reported as missing
     if gt is not None and (~phen).any():
         ctx.check("C14.alignment", bool(numpy.isnan(mat[~phen]).all()), site, "unphenotyped taxon reported as missing (NaN)", gcls,
                   witness=dict(wit, got=mat, expected=exp), coords=coords)
     err = numpy.abs(mat - exp)
+    unobs = numpy.isnan(exp) & phen[:, None]     # the taxon has records but none observed for this trait
+    if unobs.any():
+        ctx.check("C14.means", bool(numpy.isnan(mat[unobs]).all()), site, "missing (NaN) when the taxon has no observed record of that trait", icls,
+                  what="%s: %d taxon x trait cells without any observed record were given a value (e.g. %r)"
+                  % (site, int((~numpy.isnan(mat[unobs])).sum()), mat[unobs][~numpy.isnan(mat[unobs])][:3].tolist()),
+                  witness=dict(wit, got_taxa=bv.taxa, got=mat, expected=exp), coords=coords)
     bad = ~(err <= tl[None, :])          # NaN where a mean is expected counts as wrong
     bad[~phen] = False
+    bad[unobs] = False
     missing_rows = 0
     if gt is None:
         missing_rows = len(set(means) - set(btaxa))
@@ -680,6 +688,20 @@ def case_flow(ctx, c):
                 fr[t] = numpy.rint(numpy.clip(fr[t].to_numpy(dtype=float), -1e15, 1e15)).astype(g.choice(["int64", "int32"]) if numpy.abs(fr[t]).max() < 2e9 else "int64")
             else:
                 fr[t] = fr[t].to_numpy(dtype=float).astype("float32"); f32.add(t)
+    # unobserved plots: NaN cells scattered independently per trait (float columns only), some taxa without any record of one trait
+    mkind = ["complete", "complete", "cells missing per trait", "cells missing per trait", "some taxa unobserved for one trait"][int(g.integers(5))]
+    fcols = [t for t in tr if fr[t].dtype.kind == "f"]
+    if mkind != "complete" and fcols:
+        labs_ = numpy.array([repr(x) for x in frame_labels(fr, tc)])
+        for t in fcols:
+            col = fr[t].to_numpy().copy()
+            col[g.random(len(col)) < float(g.choice([0.1, 0.3, 0.5]))] = numpy.nan
+            if mkind.startswith("some taxa") and g.random() < 0.7:
+                col[numpy.isin(labs_, g.choice(numpy.unique(labs_), int(g.integers(1, 3))))] = numpy.nan
+            fr[t] = col
+    else:
+        mkind = "complete"
+    ctx.sumnote("estimate tables with %s" % mkind)
     ikind = ["as is", "as is", "string index", "non-unique index", "reversed index", "offset index"][int(g.integers(6))]
     if ikind == "string index":
         fr.index = ["r%03d" % i for i in g.permutation(len(fr))]
@@ -694,7 +716,7 @@ def case_flow(ctx, c):
     vals = fr[tr].to_numpy(dtype=float)
     means = FT.taxon_means(labels, [tuple(r) for r in vals])
     # a float32 column may be averaged and returned in float32: its tolerance is 1e-6*scale instead of 1e-9*scale
-    colscale = [max(1.0, float(numpy.abs(vals[:, j]).max())) * (1e3 if tr[j] in f32 else 1.0) for j in range(len(tr))]
+    colscale = [max(1.0, float(numpy.nan_to_num(numpy.abs(vals[:, j])).max())) * (1e3 if tr[j] in f32 else 1.0) for j in range(len(tr))]
     fgroups = None
     if gc is not None and pg.taxa_grp is not None:
         fgroups = dict(zip(labels, fr[gc].tolist()))
